@@ -117,7 +117,8 @@ def run_manager(ex, case):
     ll = LList([vals["l0"], vals["l1"]])
     ll.log = log
     dict.update(d, {"a": vals["a"], "b": vals["b"], "c": vals["c"],
-                    "n": LObj(log, x=vals["n.x"], y=vals["n.y"], z=vals["n.z"]), "l": ll})
+                    "n": LObj(log, x=vals["n.x"], y=vals["n.y"], z=vals["n.z"]), "l": ll,
+                    "__K": {-1: vals["K-1"], -2: vals["K-2"]}})
     m = xd.Manager()
     r = m.ref(d, "d")
     g = ex.func("g", 2)
